@@ -258,6 +258,42 @@ class GetProcessStatus:
                           or (disp(p) == ProcessStates.EXITED and p.expected_exit))
 
 
+def anchored_pattern(pattern_name):
+    """the text compiled by _get_matches (same template as the code: an uninterpreted function of the name)"""
+    return '^%s$' % pattern_name
+
+
+@contract('application:ApplicationStatus._get_matches', props=['C15'])
+class GetMatches:
+    """value of a pattern leaf: 'the major failure is the negation of the formula' evaluated on the CURRENT processes -
+    the names returned are exactly the keys of self.processes (now) that the anchored pattern matches, whatever was
+    evaluated before (no memory between evaluations), and the evaluation changes nothing"""
+    raises = ('ApplicationStatusParseError',)
+    types = {'results': 'List[str]'}
+
+    def modifies(self, pattern_name):
+        return []
+
+    def pre_pattern(self, pattern_name):
+        return pattern_name is not None
+
+    def post_exactly_the_current_matches(self, pattern_name, result):
+        return (forall(str, lambda n: (n in result) == (n in self.processes
+                                                        and uf('re_match_matches', bool, anchored_pattern(pattern_name), n)))
+                and was_fresh(result))
+
+    def exc_ApplicationStatusParseError_invalid(self, pattern_name, exc):
+        return not uf('re_valid', bool, anchored_pattern(pattern_name))
+
+    def loop0_inv(self, seen, results, pattern, pattern_name):
+        return (pattern.pattern == anchored_pattern(pattern_name) and was_fresh(results)
+                and forall(str, lambda n: (n in results) == (n in seen and uf('re_match_matches', bool,
+                                                                              anchored_pattern(pattern_name), n))))
+
+    def loop0_modifies(self, results):
+        return [contents(results)]
+
+
 @contract('application:ApplicationStatus.evaluate', props=['C15'])
 class Evaluate:
     """statement: 'the formula evaluated over process names and patterns with and/or/not/any/all. Evaluating a formula
